@@ -245,6 +245,15 @@ def c04_3(ctx: Ctx) -> RuleResult:
 
 @rule(P)
 def c04_4(ctx: Ctx) -> RuleResult:
+    """The CVaR kernel's instances (the sort kernel's are C05.1's; C14.7 uses both)."""
+    res = ranking_of_successes(ctx)
+    ck = cvar_kernel(ctx)
+    res.instances = [i for i in res.instances if i.func == ck.qualname or ck.name in i.construct]
+    res.floor = 2
+    return res
+
+
+def ranking_of_successes(ctx: Ctx) -> RuleResult:
     res = RuleResult("C04.4", "TERM", "failed realizations are never ranked: values are NaN under `failed`, argsorted, truncated to the number of successes")
     X = ctx.X
     for f in (cvar_kernel(ctx), sort_kernel(ctx)):
